@@ -25,25 +25,17 @@ func main() {
 		panic(err)
 	}
 	fr := h.ValidityFragments()
-	e := func(n string) h.PE { return h.PE{Name: "if", Keys: [][2]string{{"name", n}}} }
-	L := func(v string, p ...h.PE) h.Leaf { return h.Leaf{P: h.Path(p), V: v} }
-	fr["i3"] = &h.Fragment{Name: "i3", Leaves: []h.Leaf{L("one", e("e1"), h.PE{Name: "descr"}), L("two", e("e2"), h.PE{Name: "descr"}), L("three", e("e3"), h.PE{Name: "descr"})}}
-	fr["i1"] = &h.Fragment{Name: "i1", Leaves: []h.Leaf{L("one", e("e1"), h.PE{Name: "descr"}), L("e1", h.PE{Name: "refs"}, h.PE{Name: "uplink"})}}
 	w, err := h.NewWorld(u, cc, nil, h.WorldOpts{Fragments: fr, Validation: &dconfig.Validation{}})
 	if err != nil {
 		panic(err)
 	}
 	log.SetLevel(log.ErrorLevel)
-	I := func(o string, p int32, f string) h.IntentSpec { return h.IntentSpec{Owner: o, Prio: p, Frag: f} }
-	out := w.Apply(h.Op{Intents: []h.IntentSpec{I("A", 10, "i3")}})
-	fmt.Println("setup rejected:", out.Rejected(), out.Err)
-	if len(os.Args) > 1 {
-		err = w.Raw.Modify(context.Background(), w.Name, &cache.Opts{Store: cachepb.Store_CONFIG}, [][]string{{"if", "e2"}, {"if", "e3"}}, nil)
-		fmt.Println("drop:", err)
+	if len(os.Args) > 2 {
+		log.SetLevel(log.DebugLevel)
 	}
-	out = w.Apply(h.Op{Intents: []h.IntentSpec{I("A", 10, "i1")}})
-	fmt.Println("test rejected:", out.Rejected(), out.Err, out.Rsp)
-	r, _ := w.ReadStore(cachepb.Store_CONFIG)
-	fmt.Println("  running:", r)
-	fmt.Println("  device:", w.Dev.Snapshot())
+	out := w.Apply(h.Op{Intents: []h.IntentSpec{{Owner: "A", Prio: 10, Frag: os.Args[1]}}})
+	fmt.Println("rejected:", out.Rejected(), out.Err, out.Rsp)
+	_ = context.Background
+	_ = cache.Opts{}
+	_ = cachepb.Store_CONFIG
 }
